@@ -81,11 +81,23 @@ def run(ctx):
             cases.append(("random-hdr-%d" % k, crcutil.fix_checksum(hdr)))
     ctx.cov["bases"] = len(bases)
     ctx.cov["cases"] = len(cases)
+    # values nested up to 100000 containers deep: the instruction budget is generous (millions), so these run on the implementation
+    # only (the list-based model would need hours); the oracle is the property's own: a normal result or a reported error, no crash
+    deep = gen_mod.deep_value_modules(L, tab)
+    dl = ["vm.run %d 0 %s" % (fu, common.hexs(d)) for _, d, fu in deep]
+    dp = common.batch_robust(probe, dl, timeout=3000, env=env)
+    deep_fail = []
+    for (lab, d, fu), c in zip(deep, dp):
+        ctx.case(lab)
+        if classify(c)[0] == "crash" or "dangling=true" in c or not c.startswith("R "):
+            deep_fail.append({"case": lab, "impl": c[:300], "why": "a value nested that deep makes the implementation crash (C stack exhausted by a recursive walk) or misbehave",
+                              "module_hex": d.hex(), "fuel": fu})
+    ctx.cov["deep_value_modules"] = len(deep)
 
     lines = ["vm.run %d 0 %s" % (fuel, common.hexs(d)) for _, d in cases]
     md = common.batch(driver, lines, timeout=3000)[0]
     pd = common.batch_robust(probe, lines, timeout=3000, env=env)
-    oracle_fail, disagreements = [], []
+    oracle_fail, disagreements = list(deep_fail), []
     klass = {}
     for (lab, d), a, c in zip(cases, md, pd):
         ca, cc = classify(a), classify(c)
